@@ -290,7 +290,8 @@ func (in *Interp) callFn(fn *ssa.Function, args []Value, env []Value, caller *fr
 		return r
 	}
 	if fn.Blocks == nil {
-		in.unsupported("no code for function %s", fn)
+		in.curFrame = caller
+		in.unsupported("no code for function %s; called from:\n%s", fn, in.stackTrace())
 	}
 	if fn.TypeParams().Len() > 0 && len(fn.TypeArgs()) == 0 {
 		in.unsupported("uninstantiated generic function %s", fn)
